@@ -256,3 +256,30 @@ Proof.
 Qed.
 
 Print Assumptions olf_model_phase1_indep.
+
+(* non-vacuity: the variant-record file of Proofs/WrapOptimalityProofs.v as a token vector, width 10^9,
+   indentation 2 / continuation 4 against indentation 8 / continuation 3 *)
+From PasfmtVerif Require Import Proofs.WrapOptimalityProofs.
+
+Definition wf_l : list ftoken :=
+  map (fun ti => (mkToken [] (repeat 120 (N.to_nat (ti_len ti))) (ti_ty ti), mkFmt false 0 0 0 (ti_sp ti))) f30_infos.
+
+Example wf_infos : map tokinfo_of wf_l = f30_infos.
+Proof. vm_compute. reflexivity. Qed.
+
+Example wf_bound : unconstrained_bound (map tokinfo_of wf_l) f30_lines 8 4 = 333.
+Proof. vm_compute. reflexivity. Qed.
+
+Example wf_phase1_indep :
+  fst (fst (olf_model (mkRS [10] (repeat 32 2) (repeat 32 4)) wi_WA false f30_lines wf_l))
+  = fst (fst (olf_model (mkRS [10] (repeat 32 8) (repeat 32 3)) wi_WB false f30_lines wf_l)).
+Proof.
+  refine (proj1 (olf_model_phase1_indep _ _ wi_WA wi_WB f30_lines wf_l eq_refl eq_refl _ _ _)).
+  - vm_compute. reflexivity.
+  - vm_compute. intros H; discriminate.
+  - vm_compute. intros H; discriminate.
+Qed.
+
+(* the plan is not empty: 18 decisions *)
+Example wf_plan_len : length (plan_of_events (rev (ss_log (wrap_phase1 wi_WA (map tokinfo_of wf_l) f30_lines)))) = 18%nat.
+Proof. vm_compute. reflexivity. Qed.
